@@ -11,4 +11,4 @@ run_one() {
   echo "done $id: $(tr '\n' ' ' < /tmp/seedmx/$id.txt)"
 }
 export -f run_one
-ls /verif/seeded | grep -v MATRIX | grep -E -e "${ONLY:-.}" | xargs -P 4 -I{} bash -c 'run_one {}'
+ls /verif/seeded | grep -v MATRIX | grep -E -e "${ONLY:-.}" | xargs -P 5 -I{} bash -c 'run_one {}'
